@@ -147,11 +147,11 @@ class FunctionResult:
         return [r for r in self.results if r['kind'] == 'cover' and r['verdict'] == 'unsat']
 
 
-def verify_function(reg, contract, timeout_ms, fn_ast=None, nproc=NPROC, stop_on_first=False):
+def verify_function(reg, contract, timeout_ms, fn_ast=None, nproc=NPROC, stop_on_first=False, lenient=False):
     fr = FunctionResult(contract)
     t0 = time.time()
     try:
-        ex = Exec(reg, contract, fn_ast=fn_ast)
+        ex = Exec(reg, contract, fn_ast=fn_ast, lenient=lenient)
         fr.fn_hash = source.func_hash(ex.fn)
         vcs = ex.run()
         fr.paths = ex.paths
@@ -425,8 +425,22 @@ def run_property(modname, tier='quick', seed=0, rebaseline=False, only=None, can
         if c.opaque or c.trusted:
             rep.assumptions.append(f'assumed contract (body not verified): {c.name}' + (f' — {c.note}' if c.note else ''))
     rep.assumptions += list(getattr(module, 'ASSUMPTIONS', []))
+    bl0 = baseline().get(pid, {})
     for c in under:
         fr = verify_function(reg, c, timeout_ms)
+        if fr.error and fr.error[0] == 'unsupported' and not rebaseline:
+            # the function was inside the subset when the baseline was recorded and its source has changed since: retry with
+            # the weakest contract for calls that have none, so that the obligations are still generated and decided
+            b = bl0.get(c.name)
+            try:
+                now = source.func_hash(source.load(c.file).function(c.qualname))
+            except source.SourceError:
+                now = None
+            if b and now and b.get('ast_sha') != now:
+                fr2 = verify_function(reg, c, timeout_ms, lenient=True)
+                if not fr2.error:
+                    rep.notes.append(f'{c.name}: changed source calls a function without contract ({fr.error[1][:120]}); verified with the weakest contract for it')
+                    fr = fr2
         rep.functions.append(fr)
         rep.trusted |= fr.trusted
         if fr.error:
